@@ -22,6 +22,8 @@ pub struct Builder {
     context: Context,
     preset: Preset,
     block_content_encoder_map: Option<BlockContentEncoderMap>,
+    #[cfg(noodles_verif)]
+    verif_records_per_slice: Option<usize>,
 }
 
 impl Builder {
@@ -77,6 +79,13 @@ impl Builder {
     /// ```
     pub fn encode_alignment_start_positions_as_deltas(mut self, value: bool) -> Self {
         self.context.encode_alignment_start_positions_as_deltas = value;
+        self
+    }
+
+    /// Sets the number of records per slice (verification hook, `--cfg noodles_verif` only).
+    #[cfg(noodles_verif)]
+    pub fn verif_set_records_per_slice(mut self, records_per_slice: usize) -> Self {
+        self.verif_records_per_slice = Some(records_per_slice);
         self
     }
 
@@ -136,6 +145,8 @@ impl Builder {
         }
 
         let records_per_slice = self.preset.records_per_slice();
+        #[cfg(noodles_verif)]
+        let records_per_slice = self.verif_records_per_slice.unwrap_or(records_per_slice);
         let records_per_container = DEFAULT_SLICES_PER_CONTAINER * records_per_slice;
 
         self.context.records_per_slice = records_per_slice;
